@@ -289,6 +289,35 @@ fn main() {
     let bad = Arc::new(Mutex::new(vec![]));
     let mut models = 0u64;
     let bound = if thorough { 3 } else { 2 };
+    if std::env::args().nth(2).as_deref() == Some("pair") {
+        // C05: one side of a mutual dial. Thread A is the life of one connection with the peer
+        // (registered, then its handler notices the close and unregisters it by stable id);
+        // thread B registers the other connection of the pair (every direction combination,
+        // 0/2 inbound, 1/3 outbound). Whatever the interleaving, the outcome must be one of
+        // the sequential ones.
+        // connections 0..4 are with peer P, 4..8 with peer Q (the two peers sit on either side of
+        // the local identity in the order whenever the three keys allow it)
+        for (first, second) in (0..4usize).flat_map(|a| (0..4usize).map(move |b| (a, b))).chain((4..8usize).flat_map(|a| (4..8usize).map(move |b| (a, b)))) {
+            {
+                if first == second {
+                    continue;
+                }
+                models += 1;
+                run_model(pool.clone(), vec![vec![Op::Add(first), Op::RemoveId(first)], vec![Op::Add(second)]], 3, &execs, bad.clone());
+                if thorough {
+                    models += 1;
+                    run_model(pool.clone(), vec![vec![Op::Add(first), Op::RemoveId(first)], vec![Op::Add(second), Op::RemoveId(second)]], 3, &execs, bad.clone());
+                    models += 1;
+                    run_model(pool.clone(), vec![vec![Op::Add(first), Op::RemoveId(first)], vec![Op::Add(second)], vec![Op::Peers]], 2, &execs, bad.clone());
+                }
+            }
+        }
+        let bad = bad.lock().unwrap().clone();
+        println!("{}", json!({"models": models, "schedules": execs.load(Ordering::Relaxed), "preemption_bound": 3, "violations": bad}));
+        drop(pool);
+        drop(rt);
+        return;
+    }
     let mutates = |p: &Vec<Op>| p.iter().any(|o| !matches!(o, Op::Subscribe | Op::Peers));
     for a in &menu {
         for b in &menu {
